@@ -22,6 +22,36 @@ def make_trace(iface, res, ended, case, zerocopy=False):
     return {"iface": iface, "ended": ended, "events": evs, "case": case, "why": why}
 
 
+def denial(inner, with_ext=True, closes=None):
+    """WebsocketDenialResponse(inner) behind an adapter that lets the http harness server drive it: the scope becomes a websocket
+    scope (with or without the denial extension), websocket.http.response.* events are renamed back for the recogniser,
+    websocket.close events are counted, anything else passes through unchanged (and is then not a legal event)"""
+    from baize.asgi.websocket import WebsocketDenialResponse
+    d = WebsocketDenialResponse(inner)
+
+    async def app(scope, receive, send):
+        s2 = dict(scope, type="websocket", extensions={"websocket.http.response": {}} if with_ext else {})
+
+        async def r2():
+            m = await receive()
+            if m["type"] == "http.disconnect":
+                return {"type": "websocket.disconnect", "code": 1006}
+            if m["type"] == "http.request":
+                return {"type": "websocket.connect"}
+            return m
+
+        async def s3(m):
+            t = m.get("type", "")
+            if t.startswith("websocket.http.response."):
+                m = dict(m, type="http.response." + t.rsplit(".", 1)[1])
+            elif t == "websocket.close" and closes is not None:
+                closes.append(dict(m))
+                return
+            await send(m)
+        await d(s2, r2, s3)
+    return app
+
+
 def execute(iface, app, req, fault=None, zerocopy=False):
     """run with an optional fault; returns (result, ended)"""
     kind, at = fault if fault else ("none", 0)
@@ -126,6 +156,25 @@ def run(ctx):
                         ctx.count()
                         if fault or hdrs or zc or "non-ascii" in name or "latin-1" in name:
                             ctx.nontriv((name, iface, zc, method, str(hdrs), str(fault)))
+        # ---- WebSocket denial: every recipe sent as the HTTP answer to a websocket handshake (ASGI extension), and without the extension
+        for name, build, pieces in R:
+            for fault in (None, ("sendfail", 1), ("sendfail", 2), ("disconnect", 1)):
+                case = {"recipe": "WebsocketDenialResponse(%s)" % name, "iface": "asgi", "zerocopy": False, "method": "GET", "headers": [],
+                        "fault": list(fault) if fault else None}
+                closes = []
+                r, ended = execute("asgi", denial(build("asgi", env), True, closes), servers.Req(), fault, False)
+                traces.append(make_trace("asgi", r, ended, case, False))
+                ctx.count()
+                if closes:
+                    ctx.violation(case, "only websocket.http.response.* events", closes, "denial response also sent websocket.close")
+                ctx.nontriv(("denial", name, str(fault)))
+            closes = []
+            r, ended = execute("asgi", denial(build("asgi", env), False, closes), servers.Req(), None, False)
+            ctx.count()
+            if r.events or len(closes) != 1 or r.exc is not None:
+                ctx.violation({"recipe": "WebsocketDenialResponse(%s) without the extension" % name}, "exactly one websocket.close",
+                              {"closes": closes, "other": [m.get("type") for m in r.events], "exc": repr(r.exc)},
+                              "denial without the extension must answer with exactly one websocket.close")
     finally:
         shutil.rmtree(env.dir, True)
 
